@@ -388,6 +388,9 @@ ORDERS = ["general", "specific", "shuffle", None]
 
 def any_kind(seed, kinds=None, accept=None, order="rotate"):
     kinds = kinds or KINDS
+    # Hypothesis starts every shard with the minimal integer: the shard's salt keeps the streams apart
+    import os
+    seed = (seed * 2654435761 + int(os.environ.get("VERIF_SALT", "0")) * 97) % (2 ** 48)
     o = ORDERS[(seed // len(kinds)) % len(ORDERS)] if order == "rotate" else order
     c = None
     for i in range(3):      # a kind that is not met within the candidate budget hands over to the next one
